@@ -1,6 +1,6 @@
 CONFIG = dict(
     level="fault_enumeration",
-    programs=[("Sim1", "default", 900, 7, 30000, 7), ("Sim2", "default", 1500, 2, 40000, 3),
+    programs=[("Sim1", "default", 700, 7, 30000, 7), ("Sim2", "default", 1500, 2, 40000, 3),
               ("Sim3", "default", 1500, 2, 40000, 2), ("Sim1", "wide", 300, 2, 10000, 3),
               ("Sim3", "compound", 0, 0, 10000, 1)],
     budget_quick=60, budget_thorough=1500,
